@@ -33,9 +33,11 @@ class Shadow:
         self.special = 0.08
         self.weights = {'late-unschedule': 1.0, 'orphan': 1.0, 'unschedule-orphan': 2.0, 'late-resources': 1.5, 'jp-cancel-path': 1.0,
                         'late-schedule': 1.0, 'dead-instance-attempt': 1.0, 'compact-cycle': 1.0, 'cancel-cleanup-cancel': 1.0,
-                        'jp-timeout': 1.0, 'resources-again': 1.0, 'late-creating': 1.0}
+                        'jp-timeout': 1.0, 'resources-again': 1.0, 'late-creating': 1.0, 'deactivate-at-end-time': 1.0}
         self.abs_in_update = 0.2       # share of in-update parents a bunch names by ABSOLUTE id (the legacy `parent_ids` form)
         self.legacy_spelling = 0.3     # share of specs with absolute parents that send them under the deprecated key `parent_ids` (L prefix)
+        self.same_ms = 0.3             # probability that tick() may leave the clock where it is
+        self.cancel_between_bunches = 0.05   # a cancel lands between two group bunches / between the groups and the jobs of an update
         self.jp_jobs = 0.2             # share of job-private jobs (explicit machine type: the `creating` path)
         self.group_bunches = 0.3       # probability that the job groups of an update are sent in several bunches
         self.ops: List[str] = []
@@ -59,7 +61,8 @@ class Shadow:
             self.sent.append(line)
 
     def tick(self):
-        self.ts += self.rng.choice([1, 5, 10, 50])
+        # (0: two events in the same millisecond — driver and worker clocks are independent, equal timestamps do happen)
+        self.ts += self.rng.choice([0, 1, 5, 10, 50] if self.rng.random() < self.same_ms else [1, 5, 10, 50])
         if self.rng.random() < 0.08:
             self.date += 1
         return self.ts
@@ -116,10 +119,17 @@ class Shadow:
                 parts = [parts[0], parts[1][:c2], parts[1][c2:]]
         else:
             parts = [specs]
-        for p in parts:
+        for i, p in enumerate(parts):
             self.emit(f'insertGroups {b} {u["id"]} {B["user"]} ' + ' '.join(p), 'insertGroups', replayable=True)
             if rng.random() < 0.1:
                 self.emit(self.ops[-1], 'dup:insertGroups')
+            if rng.random() < self.cancel_between_bunches:
+                # the batch (or a committed group) is cancelled while the update is still being submitted: between two group bunches, or
+                # between the groups and the jobs
+                g = rng.choice([0, 0] + [x for x, info in B['groups'].items() if info['update'] is not None and
+                                         B['updates'][info['update'] - 1]['committed']])
+                self.emit(f'cancel {b} {g}', 'cancel:between-bunches')
+                B['cancelled'].add(g)
 
     def ancestors(self, b, g):
         out = []
@@ -230,6 +240,7 @@ class Shadow:
         J = self.jobs[(b, j)]
         if J['attempt'] is not None:
             J['last'] = (J['attempt'], J['inst'])
+            J['end_ts'] = self.ts
         J['state'] = state
         for (bb, c), C in self.jobs.items():
             if bb == b and j in C['parents'] and C['inserted']:
@@ -292,6 +303,9 @@ class Shadow:
         if billable:
             cands['compact-cycle'] = billable
             cands['resources-again'] = billable
+        at_end = [(k, J) for k, J in done if J.get('end_ts') is not None and self.instances.get(J['last'][1], {}).get('state') == 'active']
+        if at_end:
+            cands['deactivate-at-end-time'] = at_end
         done_jp = [(k, J) for k, J in jobs if J['state'] in TERMINAL and J['ic'] == 2 and not self.job_cancelled(k[0], J)
                    and any(kk[0] == k[0] and JJ['state'] not in TERMINAL and self.visible(kk[0], JJ) for kk, JJ in jobs)]
         if done_jp:
@@ -408,6 +422,16 @@ class Shadow:
                       'addResources:again-other-quantities')
             if rng.random() < 0.6:
                 self.emit(f'heartbeat {self.tick()} {self.date} {b}:{j}:{a}', 'heartbeat', replayable=True)
+        elif name == 'deactivate-at-end-time':
+            # the instance is deactivated with the driver's timestamp EQUAL to (or a little before) the end time its worker reported for a
+            # finished job: independent clocks
+            a, inst = J['last']
+            t = J['end_ts'] - rng.choice([0, 0, 0, 1, 5])
+            self.emit(f'deactivate {inst} {rng.choice(["preempted", "deactivated"])} {t} {d}', 'deactivate:at-reported-end-time', replayable=True)
+            self.instances[inst]['state'] = 'inactive'
+            for k2, J2 in jobs:
+                if J2['inst'] == inst and J2['state'] in ('Running', 'Creating'):
+                    J2.update(state='Ready', attempt=None)
         elif name == 'late-creating':
             # a job-private job was selected Ready, its replacement instance is being created; meanwhile the late job_complete of its
             # previous (preempted) attempt made it terminal; then mark_job_creating for the new instance arrives
@@ -782,6 +806,33 @@ def submission(rng: random.Random, flavour: str = 'c39') -> Dict[str, Any]:
     b = s.create_batch(user=1)
     for _ in range(rng.choice([1, 2])):
         s.new_instance(True)
+    if flavour == 'c41':
+        # a multi-request batch whose first update is inserted but NEVER committed, next to a committed batch of the same user; both get
+        # cancelled and the canceller's loops run
+        ba = s.create_batch(user=1)
+        ua = s.open_update(ba, rng.randint(1, 3), rng.choice([0, 0, 1]))
+        s.insert_groups(ba, ua)
+        s.insert_jobs(ba, ua)
+        ua['bunches'] = [[';'.join(t.split(';')[:6] + [str(rng.choice([250, 500, 1000])), '0']) for t in part] for part in ua['bunches']]
+        while ua['bunches']:
+            s.send_bunch(ba, ua)
+        bb = s.create_batch(user=1)
+        ub = s.open_update(bb, rng.randint(1, 3), 0)
+        s.insert_jobs(bb, ub)
+        ub['bunches'] = [[';'.join(t.split(';')[:6] + [str(rng.choice([250, 500, 1000])), '0']) for t in part] for part in ub['bunches']]
+        while ub['bunches']:
+            s.send_bunch(bb, ub)
+        s.commit(bb, ub)
+        script = [rng.choice(['S', 'R'])] if rng.random() < 0.5 else []
+        cancels = [f'C{ba} 0', f'C{bb} 0']
+        rng.shuffle(cancels)
+        for c in cancels:
+            script.append(c)
+            if rng.random() < 0.4:
+                script.append(rng.choice(['R', 'S', 'U']))
+        for _ in range(rng.randint(1, 5)):
+            script.append(rng.choice(['R', 'R', 'K', 'U', 'S', 'WSuccess', 'O']))
+        return {'ops': s.ops, 'kind': 'actors', 'actors': script, 'aseed': rng.randint(0, 10 ** 6)}
     jp_share = {'c39': 0.25, 'c05': 0.3, 'c10': 0.25, 'c07': 0.2}[flavour]
     for k in range(rng.choice([1, 1, 2])):
         n_jobs = rng.randint(2 if flavour == 'c05' else 1, 5)
